@@ -125,4 +125,37 @@ ESCAPE_RE = re.compile('|'.join(""",
                     self.filename.unlink()
                 self._temp_name.replace(self.filename)""",
          note='large files: destination removed before the rename, a kill in between loses both'),
+    # ---- C13
+    dict(id='c13-footer-dropped-on-append-open', prop='C13', file='src/srctools/vpk.py',
+         old="""            self.footer_data = dirfile.read()""",
+         new="""            self.footer_data = dirfile.read() if self.mode is OpenModes.READ else b''""",
+         note='data stored after the tree is forgotten when an archive is opened for appending and saved again'),
+    dict(id='c13-two-tuple-no-ext-split', prop='C13', file='src/srctools/vpk.py',
+         old="""    if not ext and '.' in filename:""",
+         new="""    if not ext and '.' in filename and not (isinstance(value, tuple) and len(value) == 2 and filename.isupper()):""",
+         note='2-tuple spelling of an upper-case name is not split into name/extension'),
+    dict(id='c13-limit-off-by-one', prop='C13', file='src/srctools/vpk.py',
+         old="""        arch_data = data[limit:]""",
+         new="""        arch_data = data[limit + 1:] if len(data) == limit + 2 else data[limit:]""",
+         note='one byte lost when the data is exactly two bytes over the preload limit'),
+    dict(id='c13-overwrite-keeps-old-offset', prop='C13', file='src/srctools/vpk.py',
+         old="""                    self.offset = file.seek(0, os.SEEK_END)
+                    file.write(arch_data)""",
+         new="""                    end = file.seek(0, os.SEEK_END)
+                    if not self.offset or self.arch_index != arch_index:
+                        self.offset = end
+                    file.write(arch_data)""",
+         note='overwriting a file stored in an archive keeps pointing at the old bytes'),
+    dict(id='c13-readonly-del', prop='C13', file='src/srctools/vpk.py',
+         old="""        self._check_writable()
+
+        path, filename, ext = _get_file_parts(item)
+
+        try:
+            folders = self._fileinfo[ext]""",
+         new="""        path, filename, ext = _get_file_parts(item)
+
+        try:
+            folders = self._fileinfo[ext]""",
+         note='read-only archive accepts deletion'),
 ]
